@@ -494,11 +494,14 @@ class Processor(object):
         if not full_tlist:
             return None
         full_tlist = np.unique(np.sort(np.hstack(full_tlist)))
-        # account for inaccuracy in float-point number
-        full_tlist = np.concatenate(
-            (full_tlist[:1], full_tlist[1:][np.diff(full_tlist) > tol])
-        )
-        return full_tlist
+        # account for inaccuracy in float-point number: a point is dropped
+        # if it is within tol of the last point that is kept (not of its
+        # predecessor, which may have been dropped itself)
+        kept = []
+        for ind in range(len(full_tlist)):
+            if not kept or full_tlist[ind] - full_tlist[kept[-1]] > tol:
+                kept.append(ind)
+        return full_tlist[kept]
 
     def get_full_coeffs(self, full_tlist=None):
         """
